@@ -70,6 +70,7 @@ struct ListWorld : World {
             if (mtm && k != K_LIST) api = 0;
             op.b = (int)r.below(1 << 20); op.c = mtm ? r.range(1, 10) : gen_vlen(r, 120);
             if ((klass == 1 || klass == 5) && op.c < 2) op.c = 2;
+            if (k == K_GROW && api == 2 && r.chance(1, 3)) op.c = gen_fmt_len(r) + 1;     // addstrf: the formatted piece has c-1 characters
             op.d = api | (klass << 3);
             if (k != K_LIST && api == 2 && k != K_GROW) op.b = (int)r.next();
             break;
